@@ -648,6 +648,9 @@ func writeFieldReadByter(name string, typ FieldType, w *iohelp.ErrorWriter, sett
 		writeFieldReadByter("("+name+")["+iName+"]", *typ.Array, w, settings, depth+1, safe)
 		writeLineWithTabs(w, "}", depth)
 	} else if typ.Map != nil {
+		if safe {
+			writeLengthCheck(w, "4", depth)
+		}
 		lnName := lengthName(settings)
 		writeLineWithTabs(w, lnName+" := iohelp.ReadUint32Bytes(buf[at:])", depth)
 		writeLineWithTabs(w, "at += 4", depth)
